@@ -1,6 +1,7 @@
 import Tmcg.Driver
 import Tmcg.Model.Args
 import Tmcg.Model.ArgsGroth
+import Tmcg.Model.ArgsSound
 /-
   Line-protocol handlers of area "args": the rotation argument (HooghSchoenmakersSkoricVillegasVRHE,
   with PUBROTZK) and the shuffle argument (GrothVSSHE with GrothSKC / PedersenCommitmentScheme) —
@@ -128,6 +129,10 @@ def hTmcgHooghVerify (mode : String) : Handler
     let X ← pCardList X; let Y ← pCardList Y; let coins ← pIntList coins
     let peer ← pPeerLines peer; let trunc ← pNat trunc; let log ← pOracle log; let crs ← pCrs crs
     let _ ← mkMode mode crs (fun _ => 0)
+    -- order of checks: the model refuses stacks of different size or with a non-member component before it reads or hashes
+    -- anything (`hooghVerifyStack_refuses`); a hash query logged by the code on such a statement means it went further
+    let early := X.length ≠ Y.length || (match mkSigmaState p q g h 0 with | .ok S => !stacksInGroup S X Y | .error _ => false)
+    if early && !log.isEmpty then some "oracle-unused" else
     some (withOracle log fun H => showOut (do
       let S ← mkSigmaState p q g h 0
       match mkMode mode crs H with
@@ -142,6 +147,8 @@ def hTmcgGrothVerify (mode : String) : Handler
     let cg ← pIntList cg; let e ← pCardList e; let E ← pCardList E; let coins ← pIntList coins
     let peer ← pPeerLines peer; let trunc ← pNat trunc; let log ← pOracle log; let crs ← pCrs crs
     let _ ← mkMode mode crs (fun _ => 0)
+    let early := e.length ≠ E.length || (match mkGrothPub p q g h cg le with | .ok P => !stacksInGroup P.S e E | .error _ => false)
+    if early && !log.isEmpty then some "oracle-unused" else
     some (withOracle log fun H => showOut (do
       let P ← mkGrothPub p q g h cg le
       match mkMode mode crs H with
@@ -157,6 +164,32 @@ def hGrothWitness : Handler
     some s!"{showList pi} {showList R}"
   | _ => none
 
+def showExc : Except Err Bool → String
+  | .ok b => showBool b
+  | .error e => toString e
+
+/-- args.groth.exceptional p q g h le [cg] [pi] [R] [e] [E] [t] lam x => 1/0: the exceptional event of the
+    soundness theorems (C04Args) for the served challenges; the harness writes the real verdict there -/
+def hGrothExc : Handler
+  | [p, q, g, h, le, cg, pi, R, e, E, t, lam, x] => do
+    let p ← pInt p; let q ← pInt q; let g ← pInt g; let h ← pInt h; let le ← pNat le
+    let cg ← pIntList cg; let pi ← pNatList pi; let R ← pIntList R
+    let e ← pCardList e; let E ← pCardList E; let t ← pIntList t; let lam ← pInt lam; let x ← pInt x
+    some (showExc (do
+      let P ← mkGrothPub p q g h cg le
+      grothExceptional P pi R e E t lam x))
+  | _ => none
+
+/-- args.vrhe.exceptional p q g h r [s] [X] [Y] [alpha] => 1/0 -/
+def hVrheExc : Handler
+  | [p, q, g, h, r, s, X, Y, alpha] => do
+    let p ← pInt p; let q ← pInt q; let g ← pInt g; let h ← pInt h; let r ← pNat r
+    let s ← pIntList s; let X ← pCardList X; let Y ← pCardList Y; let alpha ← pIntList alpha
+    some (showExc (do
+      let S ← mkSigmaState p q g h 0
+      rotExceptional S r s X Y alpha))
+  | _ => none
+
 def modes : List String := ["interactive", "publiccoin", "noninteractive"]
 
 def handlers : List (String × Handler) :=
@@ -166,6 +199,7 @@ def handlers : List (String × Handler) :=
     ("args.groth.prove." ++ m, hGrothProve m), ("args.groth.verify." ++ m, hGrothVerify m),
     ("args.tmcg.hoogh.verify." ++ m, hTmcgHooghVerify m),
     ("args.tmcg.groth.verify." ++ m, hTmcgGrothVerify m)])
-  ++ [("args.hoogh.witness", hHooghWitness), ("args.groth.witness", hGrothWitness)]
+  ++ [("args.hoogh.witness", hHooghWitness), ("args.groth.witness", hGrothWitness),
+      ("args.groth.exceptional", hGrothExc), ("args.vrhe.exceptional", hVrheExc)]
 
 end Tmcg.DriverArgs
